@@ -532,12 +532,15 @@ def main():
 
     # thorough: native oracle sweep on the unchanged code (bounded evidence, not counted as proof)
     sweep = None
-    if tier == 'thorough' and ocfgs and not violations:
+    if tier == 'thorough' and P.get('oracles') and not violations:
         if wr is None:
             wr = prepare_workrepo(work, kcfgs, ocfgs, P.get('side'))
         sweep = []
-        for o in ocfgs:
+        for o in P.get('oracles', []):
             orc = run_oracle(o, wr, seed, [], 100000)
+            # known findings are not news
+            orc['fails'] = [f for f in orc['fails'] if not any(
+                k['property'] == pid and k['obligation'] == f['obligation'] and k['match'] and k['match'] in f['input'] for k in kf['known'])]
             sweep.append({'unit': o['unit'], 'cases': orc['cases'], 'fails': orc['fails'][:5], 'ran': orc['ran'],
                           'wall_s': orc['wall_s'], 'tail': orc['tail'][-500:]})
             if orc['fails']:
